@@ -87,25 +87,69 @@ func C11(c *Ctx) {
 		c.R.Break("C11: Exec has no context parameter")
 		return
 	}
-	// derived context
-	var derive *ssa.Call
-	ssau.Instrs(exec, func(in ssa.Instruction) {
-		if cl, ok := in.(*ssa.Call); ok {
-			switch ssau.CalleeName(cl) {
-			case "context.WithCancel", "context.WithTimeout", "context.WithDeadline":
-				if cl.Common().Args[0] == ssa.Value(ctxP) {
-					derive = cl
+	pkgFns := pkgClosure(exec)
+	traces := func(v ssa.Value, target ssa.Value) bool {
+		leaves := deepDefs(v, pkgFns)
+		if len(leaves) == 0 {
+			return false
+		}
+		for _, l := range leaves {
+			if l != target {
+				// a captured variable cell: look at what is stored into it
+				if cell := cellOf(l); cell != nil {
+					okCell := false
+					for _, root := range deepDefs(cell, pkgFns) {
+						for _, sv := range storedInto(root) {
+							for _, l2 := range deepDefs(sv, pkgFns) {
+								if l2 == target {
+									okCell = true
+								}
+							}
+						}
+					}
+					if okCell {
+						continue
+					}
 				}
+				return false
 			}
 		}
-	})
+		return true
+	}
+	// anchor: the instruction of Exec that leads to `in`
+	var anchor func(in ssa.Instruction, depth int) ssa.Instruction
+	anchor = func(in ssa.Instruction, depth int) ssa.Instruction {
+		if in.Parent() == exec || depth > 4 {
+			return in
+		}
+		sites := callSitesOf(in.Parent(), pkgFns)
+		if len(sites) != 1 {
+			return nil
+		}
+		return anchor(sites[0], depth+1)
+	}
+	// derived context: a With* call (in Exec or a helper) on a value that is Exec's ctx
+	var derive *ssa.Call
+	for _, g := range pkgFns {
+		ssau.Instrs(g, func(in ssa.Instruction) {
+			if cl, ok := in.(*ssa.Call); ok {
+				switch ssau.CalleeName(cl) {
+				case "context.WithCancel", "context.WithTimeout", "context.WithDeadline":
+					if traces(cl.Common().Args[0], ctxP) {
+						derive = cl
+					}
+				}
+			}
+		})
+	}
 	if derive == nil {
 		c.R.Violate("C11-R1", "Exec: derives a cancellable context from its ctx", c.P.Pos(exec.Pos()), "no context.WithCancel/WithTimeout/WithDeadline on Exec's ctx parameter")
 		return
 	}
 	ictx, cancel := callResults(derive)[0], callResults(derive)[1]
+	deriveAnchor := anchor(derive, 0)
 	// the call that runs the program
-	fns := ssau.WithAnon(exec)
+	fns := append([]*ssa.Function{}, pkgFns...)
 	for _, f := range c.P.FuncsIn("interpreters/ecmascript") {
 		fns = append(fns, f)
 	}
@@ -121,9 +165,55 @@ func C11(c *Ctx) {
 			}
 		}
 	})
-	if runCall == nil {
-		c.R.Break("C11: Exec never runs a program")
+	if runCall == nil || deriveAnchor == nil {
+		c.R.Break("C11: Exec never runs a program (or the derived context cannot be related to Exec)")
 		return
+	}
+	// norm: leaf definitions, looking through (captured) variable cells to the values stored into them
+	var normRec func(v ssa.Value, depth int, seen map[ssa.Value]bool) []ssa.Value
+	normRec = func(v ssa.Value, depth int, seen map[ssa.Value]bool) []ssa.Value {
+		var out []ssa.Value
+		if depth > 8 || seen[v] {
+			return nil
+		}
+		seen[v] = true
+		for _, l := range deepDefs(v, pkgFns) {
+			cell := cellOf(l)
+			if cell == nil {
+				out = append(out, l)
+				continue
+			}
+			for _, root := range deepDefs(cell, pkgFns) {
+				svs := storedInto(root)
+				if len(svs) == 0 {
+					out = append(out, root)
+				}
+				for _, sv := range svs {
+					out = append(out, normRec(sv, depth+1, seen)...)
+				}
+			}
+		}
+		return out
+	}
+	norm := func(v ssa.Value) []ssa.Value { return normRec(v, 0, map[ssa.Value]bool{}) }
+	rtLeaves := norm(runtimeVal)
+	sameRuntime := func(v ssa.Value) bool {
+		ls := norm(v)
+		if len(ls) == 0 || len(rtLeaves) == 0 {
+			return false
+		}
+		for _, l := range ls {
+			ok := false
+			for _, r := range rtLeaves {
+				if l == r || sameVar(l, r) {
+					ok = true
+				}
+			}
+			if !ok {
+				return false
+			}
+		}
+		return true
 	}
 	// ---- R1 / R3: go statements
 	var gos []*ssa.Go
@@ -161,103 +251,83 @@ func C11(c *Ctx) {
 	okWatcher := false
 	var watcherWhy = "no goroutine waits on the derived context and interrupts the runtime"
 	for _, g := range gos {
-		mc, ok := g.Call.Value.(*ssa.MakeClosure)
-		if !ok || g.Parent() != exec {
+		var wfn *ssa.Function
+		if mc, ok := g.Call.Value.(*ssa.MakeClosure); ok {
+			wfn = mc.Fn.(*ssa.Function)
+		} else if sc := g.Call.StaticCallee(); sc != nil {
+			wfn = sc
+		}
+		if wfn == nil || !closure[wfn] {
 			continue
 		}
-		wfn := mc.Fn.(*ssa.Function)
-		waits, interrupts := false, false
+		waits, interrupts, unconditional := false, false, false
+		pd := flow.NewPostDom(wfn)
 		ssau.Instrs(wfn, func(in ssa.Instruction) {
 			if u, ok := in.(*ssa.UnOp); ok && u.Op == token.ARROW {
 				if cl, ok := u.X.(*ssa.Call); ok && cl.Common().IsInvoke() && cl.Common().Method.Name() == "Done" {
-					// receiver bound to ictx
-					recv := cl.Common().Value
-					var bound ssa.Value = recv
-					if fv, ok := recv.(*ssa.FreeVar); ok {
-						bound = bindingOf(mc, fv)
-					} else if cell := cellOf(recv); cell != nil {
-						if fv, ok := cell.(*ssa.FreeVar); ok {
-							bound = bindingOf(mc, fv)
-						}
-					}
-					if bound == ictx {
+					if traces(cl.Common().Value, ictx) {
 						waits = true
-					} else if al, ok := bound.(*ssa.Alloc); ok {
-						for _, sv := range storedInto(al) {
-							if sv == ictx {
-								waits = true
-							}
-						}
 					}
 				}
 			}
 			if ci, ok := in.(ssa.CallInstruction); ok && ssau.CalleeName(ci) == "(*"+gojaRuntime+".Runtime).Interrupt" {
-				recv := ci.Common().Args[0]
-				var bound ssa.Value = recv
-				if fv, ok := recv.(*ssa.FreeVar); ok {
-					bound = bindingOf(mc, fv)
-				} else if cell := cellOf(recv); cell != nil {
-					if fv, ok := cell.(*ssa.FreeVar); ok {
-						bound = bindingOf(mc, fv)
-					}
-				}
-				if bound == runtimeVal || sameVar(bound, runtimeVal) || (cellOf(runtimeVal) != nil && cellOf(runtimeVal) == bound) {
+				if sameRuntime(ci.Common().Args[0]) {
 					interrupts = true
+					if pd.PostDominates(in.Block(), wfn.Blocks[0]) {
+						unconditional = true
+					}
 				}
 			}
 		})
-		// the receive must precede the interrupt: the interrupt block is dominated by the receive
 		noLoop := len(flow.Loops(wfn)) == 0
-		dominates := g.Block().Dominates(runCall.Block())
-		if waits && interrupts && noLoop && dominates {
+		ga := anchor(g, 0)
+		dominates := ga != nil && flow.InstrDominates(ga, runCall.(ssa.Instruction))
+		if waits && interrupts && unconditional && noLoop && dominates {
 			okWatcher = true
 		} else {
-			watcherWhy = fmt.Sprintf("watcher goroutine: waits on the derived context=%v, interrupts the running runtime=%v, loop-free=%v, started on every path before the program runs=%v", waits, interrupts, noLoop, dominates)
+			watcherWhy = fmt.Sprintf("watcher goroutine: waits on the derived context=%v, interrupts the running runtime=%v (unconditionally=%v), loop-free=%v, started on every path before the program runs=%v", waits, interrupts, unconditional, noLoop, dominates)
 		}
 		c.R.Check(noLoop, "C11-R3", "watcher has no loop", c.pos(g), "straight-line: wait, interrupt, exit", "the watcher loops")
 	}
 	c.R.Check(okWatcher, "C11-R1", "Exec: cancellation watcher", c.pos(runCall), "a goroutine started before the program runs blocks on Done() of the derived context and then calls Interrupt on the runtime running the program", watcherWhy)
-	c.R.Check(flow.InstrDominates(derive, runCall.(ssa.Instruction)), "C11-R1", "Exec: derived context exists before the program runs", c.pos(derive), "creation dominates the run", "the derived context is not always created before the program runs")
-	// the runtime that runs is the one interrupted: covered above; also the derived context is from ctxP (by construction)
+	c.R.Check(flow.InstrDominates(deriveAnchor, runCall.(ssa.Instruction)), "C11-R1", "Exec: derived context exists before the program runs", c.pos(derive), "creation dominates the run", "the derived context is not always created before the program runs")
 	c.R.Discharge("C11-R1", "Exec: derived from the caller's ctx", c.pos(derive), ssau.CalleeName(derive)+"(ctx)")
 
-	// ---- R2 cancel on every path
+	// ---- R2 cancel on every path (in Exec, from the point where the derived context exists)
 	if cancel == nil {
 		c.R.Violate("C11-R2", "Exec: cancel function kept", c.pos(derive), "the cancel function of the derived context is discarded")
 	} else {
 		cancelBlocks := map[*ssa.BasicBlock]bool{}
 		deferred := false
-		for _, r := range ssau.Referrers(cancel) {
-			switch u := r.(type) {
+		ssau.Instrs(exec, func(in ssa.Instruction) {
+			switch u := in.(type) {
 			case *ssa.Call:
-				if u.Common().Value == cancel {
+				if u.Common().StaticCallee() == nil && !u.Common().IsInvoke() && traces(u.Common().Value, cancel) {
 					cancelBlocks[u.Block()] = true
 				}
 			case *ssa.Defer:
-				if u.Call.Value == cancel && u.Block().Dominates(runCall.Block()) {
+				if traces(u.Call.Value, cancel) && u.Block().Dominates(runCall.Block()) {
 					deferred = true
 				}
 			}
-		}
+		})
+		start := deriveAnchor.Block()
 		ok := deferred
 		if !deferred {
-			ok = true
+			ok = len(cancelBlocks) > 0
 			for _, b := range exec.Blocks {
 				if _, isRet := b.Instrs[len(b.Instrs)-1].(*ssa.Return); !isRet {
 					continue
 				}
-				if !flow.Reachable(derive.Block(), b, nil) || derive.Block() == b {
+				if !flow.Reachable(start, b, nil) || start == b {
 					continue
 				}
-				if cancelBlocks[derive.Block()] {
+				if cancelBlocks[start] {
 					continue
 				}
-				if flow.Reachable(derive.Block(), b, cancelBlocks) && !cancelBlocks[b] {
+				if flow.Reachable(start, b, cancelBlocks) && !cancelBlocks[b] {
 					ok = false
 				}
-			}
-			if len(cancelBlocks) == 0 {
-				ok = false
 			}
 		}
 		c.R.Check(ok, "C11-R2", "Exec: cancel on every path to a return", c.pos(derive), "every return after the creation is preceded by cancel()", "a return can be reached without cancel(): the watcher goroutine and the derived context outlive the call")
